@@ -280,8 +280,8 @@ func c03One(c *Ctx, s *corpus.Spec, r YRes, dir string) {
 	h.Rule("(conflictCell q t)", "(rr q t r r2)")
 	h.Rule("(unres q t)", "(sr q t r)", "(not (precTok t))")
 	h.Rule("(unres q t)", "(sr q t r)", "(not (precRule r))")
-	h.Rule("(unres q t)", "(rr q t r r2)", "(not (precRule r))")
-	h.Rule("(unres q t)", "(rr q t r r2)", "(not (precRule r2))")
+	// precedence is defined between a rule and a token: a reduce/reduce conflict is never resolved by it
+	h.Rule("(unres q t)", "(rr q t r r2)")
 	h.Rule("(missingWarn q t)", "(unres q t)", "(not (warn q t))", "(not (multi q t))")
 	h.Rule("(spuriousWarn q t)", "(warn q t)", "(not (unres q t))", "(not (multi q t))")
 	h.Rule("(spuriousWarn q t)", "(warn q t)", "(not (conflictCell q t))")
